@@ -3,7 +3,7 @@
 From ZV.Common Require Import Base Run.
 From Coq Require Import Sorting.Permutation Sorting.Sorted.
 From ZV.C12 Require Import Spec Model ProofsOrder ProofsSearch ProofsBuild ProofsKasai ProofsAll.
-From ZV.C12 Require Import ModelDict ProofsDictRange ProofsDict ModelCases.
+From ZV.C12 Require Import ModelDict ProofsDictRange ProofsDict ModelEsa ProofsEsa ModelCases.
 Open Scope nat_scope.
 
 (* the order used by the spec is the textbook one: proper prefix, or smaller at the first difference *)
@@ -214,3 +214,94 @@ Check da_match_max_length_longest :
     (forall k, lo <= k < hi <-> (k < length sa /\ is_prefix (firstn d q) (suffix t (nth k sa 0)))) /\
     (d < length q -> forall k, k < length sa -> ~ is_prefix (firstn (S d) q) (suffix t (nth k sa 0))).
 Print Assumptions da_match_max_length_longest.
+
+(* ================= enhanced suffix arrays: LCP / BWT storage ================= *)
+
+(* algorithms::suffix_array::EnhancedSuffixArray::with_lcp + lcp_at: the exact LCP value at every rank,
+   None past the end, for every text (usize storage, no width assumption) *)
+Theorem esa_lcp_at_is_kasai :
+  forall (sais : list N -> list nat) (analyse : list N -> alg) t,
+    (select_algorithm analyse default_config t = SAIS \/ select_algorithm analyse default_config t = Adaptive
+       -> is_sa t (sais t)) ->
+    exists e, esa_with_lcp sais analyse t = Some e /\ is_sa t (esa_sa e) /\
+              forall k, esa_lcp_at e k = nth_error (lcp_spec t (esa_sa e)) k.
+Proof. exact esa_lcp_at_is_kasai_proof. Qed.
+Check esa_lcp_at_is_kasai :
+  forall (sais : list N -> list nat) (analyse : list N -> alg) t,
+    (select_algorithm analyse default_config t = SAIS \/ select_algorithm analyse default_config t = Adaptive
+       -> is_sa t (sais t)) ->
+    exists e, esa_with_lcp sais analyse t = Some e /\ is_sa t (esa_sa e) /\
+              forall k, esa_lcp_at e k = nth_error (lcp_spec t (esa_sa e)) k.
+Print Assumptions esa_lcp_at_is_kasai.
+
+(* ... with_bwt: the BWT induced by the suffix order, a permutation of the text *)
+Theorem esa_bwt_is_bwt :
+  forall (sais : list N -> list nat) (analyse : list N -> alg) t,
+    (select_algorithm analyse default_config t = SAIS \/ select_algorithm analyse default_config t = Adaptive
+       -> is_sa t (sais t)) ->
+    let e := esa_with_bwt sais analyse t in
+    is_sa t (esa_sa e) /\ esa_bwt e = Some (bwt_spec t (esa_sa e)) /\
+    forall b, esa_bwt e = Some b -> Permutation b t.
+Proof. exact esa_bwt_is_bwt_proof. Qed.
+Check esa_bwt_is_bwt :
+  forall (sais : list N -> list nat) (analyse : list N -> alg) t,
+    (select_algorithm analyse default_config t = SAIS \/ select_algorithm analyse default_config t = Adaptive
+       -> is_sa t (sais t)) ->
+    let e := esa_with_bwt sais analyse t in
+    is_sa t (esa_sa e) /\ esa_bwt e = Some (bwt_spec t (esa_sa e)) /\
+    forall b, esa_bwt e = Some b -> Permutation b t.
+Print Assumptions esa_bwt_is_bwt.
+
+(* compression::suffix_array (values stored `as u32`): for every text the constructor accepts - that is
+   every text of at most 2^32 bytes - suffix_at_rank and lcp_at return the suffix array and the exact LCP
+   values (every stored value is below the text length, so the 32-bit cast never truncates) *)
+Theorem cesa_lcp_at_is_kasai :
+  forall (sais : list N -> list nat) t,
+    is_sa t (sais t) -> (N.of_nat (length t) <= 2 ^ 32)%N ->
+    exists e sa, is_sa t sa /\ cesa_build sais true t = Some e /\
+      c_text_len e = length t /\ cesa_len e = length t /\
+      (forall k, cesa_suffix_at_rank e k = nth_error sa k) /\
+      (forall k, cesa_lcp_at e k = nth_error (lcp_spec t sa) k).
+Proof. exact cesa_exact_proof. Qed.
+Check cesa_lcp_at_is_kasai :
+  forall (sais : list N -> list nat) t,
+    is_sa t (sais t) -> (N.of_nat (length t) <= 2 ^ 32)%N ->
+    exists e sa, is_sa t sa /\ cesa_build sais true t = Some e /\
+      c_text_len e = length t /\ cesa_len e = length t /\
+      (forall k, cesa_suffix_at_rank e k = nth_error sa k) /\
+      (forall k, cesa_lcp_at e k = nth_error (lcp_spec t sa) k).
+Print Assumptions cesa_lcp_at_is_kasai.
+
+(* ... and longer texts are refused, never truncated *)
+Theorem cesa_too_long_refused :
+  forall (sais : list N -> list nat) b t,
+    is_sa t (sais t) -> (2 ^ 32 < N.of_nat (length t))%N -> cesa_build sais b t = None.
+Proof. exact cesa_too_long_proof. Qed.
+Check cesa_too_long_refused :
+  forall (sais : list N -> list nat) b t,
+    is_sa t (sais t) -> (2 ^ 32 < N.of_nat (length t))%N -> cesa_build sais b t = None.
+Print Assumptions cesa_too_long_refused.
+
+(* a store of width W reads back unchanged exactly when every value is below 2^W ... *)
+Theorem stored_width_exact_iff :
+  forall W l, map N.to_nat (map (as_uw W) l) = l <-> Forall (fun v => (N.of_nat v < 2 ^ W)%N) l.
+Proof. exact stored_width_exact_iff_proof. Qed.
+Check stored_width_exact_iff :
+  forall W l, map N.to_nat (map (as_uw W) l) = l <-> Forall (fun v => (N.of_nat v < 2 ^ W)%N) l.
+Print Assumptions stored_width_exact_iff.
+
+(* ... so a narrower LCP store is wrong as soon as an LCP value reaches 2^W (witness W = 3, text a^9) *)
+Theorem cesa_narrow_width_refuted :
+  exists W t, let sa := sort_suffixes t in
+    match cesa_build_w (fun _ => sa) W true t with
+    | Some e => exists k, cesa_lcp_at e k <> nth_error (lcp_spec t sa) k
+    | None => False
+    end.
+Proof. exact cesa_narrow_width_refuted_proof. Qed.
+Check cesa_narrow_width_refuted :
+  exists W t, let sa := sort_suffixes t in
+    match cesa_build_w (fun _ => sa) W true t with
+    | Some e => exists k, cesa_lcp_at e k <> nth_error (lcp_spec t sa) k
+    | None => False
+    end.
+Print Assumptions cesa_narrow_width_refuted.
